@@ -307,7 +307,10 @@ def _t(x):
     if isinstance(x, float):
         if x != x or x in (math.inf, -math.inf):
             return None
-        return z3.RealVal(Fraction(repr(x)))   # decimal meaning of the literal (floats stand for reals)
+        fr = Fraction(x)
+        if fr.denominator <= (1 << 40):
+            return z3.RealVal(fr)              # short dyadic value (0.5, 440.0, 2**-32 ...): exact
+        return z3.RealVal(Fraction(repr(x)))   # otherwise the decimal meaning of the literal (0.05 is 1/20)
     if isinstance(x, Fraction):
         return z3.RealVal(x)
     if z3.is_expr(x):
@@ -1222,3 +1225,44 @@ class StructShim:
             else:
                 out.append(v)
         return _struct.pack(fmt, *out)
+
+
+class OscStructShim(StructShim):
+    """`struct` for sc3.base._osclib: symbolic ints are packed as unique placeholders (recorded in ctx._ph) so that
+    the independent OSC reader can map the bytes back to terms; range checks of the C packer are reproduced as forks."""
+
+    @staticmethod
+    def pack(fmt, *vals):
+        ctx = Ctx.cur
+        out = []
+        for v in vals:
+            if isinstance(v, SymInt):
+                ph = ctx.__dict__.setdefault('_ph', {})
+                if fmt == '>Q':
+                    if not ctx.branch(z3.And(v.e >= 0, v.e < 2 ** 64)):
+                        raise _struct.error('argument out of range')
+                    p = 0x5A5A5A0000000000 + len(ph)
+                elif fmt in ('>i',):
+                    if not ctx.branch(z3.And(v.e >= -2 ** 31, v.e < 2 ** 31)):
+                        raise _struct.error('argument out of range')
+                    p = 0x5A000000 + len(ph)
+                elif fmt in ('>I',):
+                    if not ctx.branch(z3.And(v.e >= 0, v.e < 2 ** 32)):
+                        raise _struct.error('argument out of range')
+                    p = 0x5A000000 + len(ph)
+                else:
+                    raise Inconclusive(f'symbolic int packed with format {fmt}')
+                ph[p] = v.e
+                out.append(p)
+            elif isinstance(v, SymReal):
+                out.append(pack_rep(v))
+            else:
+                out.append(v)
+        return _struct.pack(fmt, *out)
+
+
+def placeholder_term(v):
+    """int read back from bytes -> the symbolic term it stands for (or the number itself)"""
+    ctx = Ctx.cur
+    ph = ctx.__dict__.get('_ph', {}) if ctx is not None else {}
+    return ph.get(v, z3.IntVal(v))
